@@ -18,8 +18,8 @@
           a discriminated union                                            (TypeError)
         - an absent optional member whose field is a constant, carries a default, or is not nullable in the IR
                                                                             (materialised by __init__)
-        - an explicit null for a member whose field carries a default, or whose field is a non-nullable
-          array / map / enum / reference in the IR (OpenAPI `nullable` on arrays is not recorded)
+        - an explicit null for an array / map / enum / reference member whose field carries a default or is
+          not nullable in the IR (a scalar member keeps its None)
                                                                             (replaced by the default)
         - a map of maps of non-scalars (both comprehensions bind `key`: KeyError / wrong entry)
         - a discriminated union without mapping entries (typing.Union[]: the module does not import)
@@ -27,7 +27,7 @@
                         roundtrip_safe: optional empty collections, date-times, integers written with a
                         fraction, float32 digits ...). *)
 From Coq Require Import List String ZArith Bool Ascii.
-From Cog Require Import Model.GoSem Model.GoSemSpec08 Model.GoSemSpec01 Model.Ctor Model.PySem Model.PySemChecks.
+From Cog Require Import Model.GoSem Model.GoSemSpec08 Model.GoSemSpec01 Model.GoSemSpec01F Model.Ctor Model.PySem Model.PySemChecks.
 Import ListNotations.
 Local Open Scope list_scope.
 Local Open Scope string_scope.
@@ -154,7 +154,7 @@ Fixpoint py_valid (pctx : schemas) (cur_pkg : string) (t : ty) (j : json) {struc
 
 (* ---------- the exclusions ---------- *)
 Definition null_member_safe (pctx : schemas) (t : ty) : bool :=
-  (negb (recursing pctx t) && negb (has_dflt t) && (negb (is_complex_kind t) || t_nullable t))%bool.
+  (negb (recursing pctx t) && (negb (is_complex_kind t) || (t_nullable t && negb (has_dflt t))))%bool.
 Definition absent_member_safe (fld : field) : bool :=
   (negb (f_required fld) && t_nullable (f_type fld) && negb (is_const_field (f_type fld)) && negb (has_dflt (f_type fld)))%bool.
 
@@ -228,6 +228,21 @@ Definition wire_safe (ctx pctx : schemas) (p gn pn : string) (d : json) : bool :
   (py_valid_object pctx p pn d && py_rt_safe_object pctx p pn d &&
    ir_valid_object ctx p gn d && roundtrip_safe ctx p gn d)%bool.
 
+(* the fragment on which the agreement of the two SDKs is PROVED (Proofs/PyGoWire.v): Go's corrected exclusion
+   predicate roundtrip_safeF (Model/GoSemSpec01F.v) instead of roundtrip_safe, and no member given as explicit
+   null anywhere in the document (both round-trip theorems only say "up to omitted null members"; which null
+   members each SDK omits is validated by the correspondence, pf_wire_in_safe, not proved) *)
+Fixpoint no_null_members (j : json) : bool :=
+  match j with
+  | JArr l => forallb no_null_members l
+  | JObj ms => forallb (fun kv => (negb (is_jnull (snd kv)) && no_null_members (snd kv))%bool) ms
+  | _ => true
+  end.
+
+Definition wire_safeF (ctx pctx : schemas) (p gn pn : string) (d : json) : bool :=
+  (py_valid_object pctx p pn d && py_rt_safe_object pctx p pn d &&
+   ir_valid_object ctx p gn d && roundtrip_safeF ctx p gn d && no_null_members d)%bool.
+
 Definition same_wire_holds (ctx pctx : schemas) (p gn pn : string) (d : json) : bool :=
   match std_roundtrip ctx p gn d, py_roundtrip pctx p pn d with
   | GOk a, POk b => json_eq a b
@@ -262,3 +277,16 @@ Definition spec_eq_differs (c : pcase) : bool :=
   existsb (fun dj => match po_enc (snd dj) with
                      | Some e => negb (Bool.eqb (le_null_u (fst dj) e) (json_eq_mod_null (fst dj) e))
                      | None => false end) (combine docs pobs).
+
+(* documents in the fragment of py_go_same_wire_safe *)
+Definition doc_wire_proved (c : pcase) (d : json) : bool :=
+  let '(ctx, pctx, p, gn, pn, _, _, _) := c in
+  if go_case_unmodelled c then false else (json_wf d && wire_safeF ctx pctx p gn pn d)%bool.
+Definition some_doc_wire_proved (c : pcase) : bool :=
+  let '(_, _, _, _, _, docs, _, _) := c in existsb (doc_wire_proved c) docs.
+Definition pf_wire_in_proved (c : pcase) : bool :=
+  let '(_, _, _, _, _, docs, gobs, pobs) := c in
+  existsb (fun x => let '(d, g, o) := x in
+                    (doc_wire_proved c d &&
+                     (wire_differs g o || negb (seqb (ob_std g) "ok") || negb (seqb (po_tag o) "ok")))%bool)
+          (zip3 docs gobs pobs).
